@@ -121,11 +121,11 @@ Module Examples.
   (* payer 0, payee 3; 0-1 (first hops 11, 12), 1-2 (public 21), 2-3 (public 31, capacity 3 000 000),
      1-3 (hint 41) *)
   Definition g : graph :=
-    mkEdge KFirst 11 0 1 true 0 5000000 (Some 5000000) (f 0 0) 0 ::
-    mkEdge KFirst 12 0 1 true 0 5000000 (Some 5000000) (f 0 0) 0 ::
-    mkEdge KPublic 21 1 2 true 1000 4000000 (Some 10000000) (f 1000 1000) 40 ::
-    mkEdge KPublic 31 2 3 true 1000 3000000 (Some 3000000) (f 2000 10000) 144 ::
-    mkEdge KHint 41 1 3 true 0 1500000 None (f 500 0) 18 :: nil.
+    mkEdge KFirst 11 0 1 true 0 5000000 (Some 5000000) (f 0 0) 0 nil true true ::
+    mkEdge KFirst 12 0 1 true 0 5000000 (Some 5000000) (f 0 0) 0 nil true true ::
+    mkEdge KPublic 21 1 2 true 1000 4000000 (Some 10000000) (f 1000 1000) 40 nil true true ::
+    mkEdge KPublic 31 2 3 true 1000 3000000 (Some 3000000) (f 2000 10000) 144 nil true true ::
+    mkEdge KHint 41 1 3 true 0 1500000 None (f 500 0) 18 nil true true :: nil.
   Definition q : params := mkParams 0 3 3000000 2 (Some 100000) 1008 19 (99 :: nil) nil true.
   (* 2 000 000 over 11/21/31 and 1 000 000 over 12/41 *)
   Definition r : route :=
@@ -169,4 +169,26 @@ Module Examples.
     end = ((31600 :: 60000 :: 1999000 :: 1000 :: 1000000 :: nil)%list,
            (3091600 :: 3060000 :: 3000000 :: 1001000 :: 1000000 :: nil)%list, true, 1000000).
   Proof. exact midbump_example. Qed.
+
+  (* identifiers: the payer's channel to node 1 is known as 11 (alias, the id routes use) and 911
+     (real scid); 1-3 is announced twice, 22 with a feature bit the router does not know *)
+  Definition g2 : graph :=
+    mkEdge KFirst 11 0 1 true 0 1000000 (Some 1500000) (f 0 0) 0 (911 :: nil) true true ::
+    mkEdge KPublic 21 1 3 true 0 5000000 (Some 5000000) (f 1000 0) 40 nil true true ::
+    mkEdge KPublic 22 1 3 true 0 5000000 (Some 5000000) (f 0 0) 40 nil false true :: nil.
+  Definition one (excl : list Z) (id1 id2 : Z) : Z :=
+    route_diagnose g2 (mkParams 0 3 800000 2 None 1008 19 excl nil true)
+      (mkPath (mkHop id1 1 (if id2 =? 21 then 1000 else 0) 40 :: mkHop id2 3 800000 42 :: nil) None :: nil).
+  Example channel_identifiers :
+    (* naming the channel by its other identifier is a hop over the same channel … *)
+    one nil 911 21 = 0 /\
+    (* … whose capacity is counted once: 2 x 801 000 msat over 11 and 911 exceed 1 500 000 *)
+    route_diagnose g2 (mkParams 0 3 1600000 2 None 1008 19 nil nil true)
+      (mkPath (mkHop 11 1 1000 40 :: mkHop 21 3 800000 42 :: nil) None ::
+       mkPath (mkHop 911 1 1000 40 :: mkHop 21 3 800000 42 :: nil) None :: nil) = 10 /\
+    (* excluding either identifier excludes the channel, whichever name the route uses *)
+    one (911 :: nil) 11 21 = 6 /\ one (11 :: nil) 911 21 = 6 /\
+    (* a channel whose announcement requires an unknown feature is not usable *)
+    one nil 11 22 = 5.
+  Proof. vm_compute. repeat split; reflexivity. Qed.
 End Examples.
